@@ -133,13 +133,14 @@ theorem hgcdFin_spec (s a0 b0 al n a b : Nat) (M : HM) (success : Bool) (hs0 : 1
     (hacc : Acc s a0 b0 al n a b M success) :
     LoopRet s a0 b0 al n (hgcdFin n a b s M success) ∧
     ((hgcdFin n a b s M success).ret = 0 → success = false ∧ (hgcdFin n a b s M success).a = (hgcdStep n a b s M).a ∧
-      (hgcdFin n a b s M success).b = (hgcdStep n a b s M).b ∧ (hgcdStep n a b s M).ret = 0) := by
+      (hgcdFin n a b s M success).b = (hgcdStep n a b s M).b ∧ (hgcdFin n a b s M success).M = (hgcdStep n a b s M).M ∧
+      (hgcdStep n a b s M).ret = 0) := by
   have := stepLoop_spec s a0 b0 al 0 hs0 (a + b + 1) n a b M success hacc (by omega)
   unfold hgcdFin
   cases hloop : stepLoop (a + b + 1) 0 n a b s M success with
   | inl r =>
     rw [hloop] at this
-    exact ⟨this.1, fun hc => ⟨(this.2 hc).1, (this.2 hc).2.1, (this.2 hc).2.2.1, (this.2 hc).2.2.2.2.1⟩⟩
+    exact ⟨this.1, fun hc => ⟨(this.2 hc).1, (this.2 hc).2.1, (this.2 hc).2.2.1, (this.2 hc).2.2.2.1, (this.2 hc).2.2.2.2.1⟩⟩
   | inr q =>
     rw [hloop] at this
     obtain ⟨r, su⟩ := q
